@@ -540,7 +540,8 @@ func c17Actions(w *c17World, s *c17State) []c17Action {
 		}
 		if f.status == 2 {
 			// relay states
-			rss := []struct{ n, v string }{{"own", f.index}, {"empty", ""}, {"evil-url", "https://evil.example.net/phish"}}
+			// ("empty-present": the form carries a RelayState field whose value is empty - what an IdP with nothing to echo posts)
+			rss := []struct{ n, v string }{{"own", f.index}, {"empty", ""}, {"empty-present", ""}, {"evil-url", "https://evil.example.net/phish"}}
 			for j := range s.flows {
 				if j != k && s.flows[j].status > 0 {
 					rss = append(rss, struct{ n, v string }{fmt.Sprintf("flow%d", j), s.flows[j].index})
@@ -761,7 +762,7 @@ func c17Answer(w *c17World, s *c17State, k int) []string {
 func c17Deliver(w *c17World, s *c17State, k int, rs, rsName string, cookies map[string]string, viewName string) []string {
 	f := &s.flows[k]
 	form := w.responseForm(f.response)
-	if rs != "" {
+	if rs != "" || rsName == "empty-present" {
 		form.Set("RelayState", rs)
 	}
 	rep := w.acs(s.notch, cookies, form, "deliver")
